@@ -74,4 +74,21 @@ structure LookupSite where
   onTrue : String      -- what is done when the test holds (first statement of the branch)
   deriving DecidableEq, Repr
 
+/-- what a context carries -/
+inductive Bound
+  | timeout (field : String)    -- `context.WithTimeout(ctx, ipfs.config.<field>)`
+  | watchdog (cond : String)    -- `context.WithCancel(ctx)` whose cancel function is called under <cond>
+  | cancel                      -- `context.WithCancel(ctx)`, cancel only deferred
+  | connector                   -- derived from the connector's lifetime context `ipfs.ctx`, not from the caller's
+  | unknown (text : String)     -- not understood: the context may have been replaced
+  deriving DecidableEq, Repr
+
+/-- a call, inside the connector, of one of its methods that takes a context -/
+structure CtxSite where
+  fn : String            -- enclosing function
+  callee : String        -- the method called
+  endpoint : String      -- literal prefix of the endpoint (postCtx / doPostCtx calls), "" otherwise
+  bounds : List Bound    -- in the order they were put on
+  deriving DecidableEq, Repr
+
 end CV.C16.Dec
